@@ -214,6 +214,7 @@ def c11(prog, rep):
     DL.rule_fresh_position(prog, rep, ['src/containers/qlisttbl.c', 'src/containers/qlist.c'])
     from . import dimrules as DM
     DM.rule_dim1(prog, rep, C.C11_UNITS)
+    DM.rule_wid2(prog, rep, C.C11_UNITS)
     rep.explanation = (
         'Structural memory-safety clauses over the 11 anchored units, all CFG paths: M1 every memcpy/strcpy/strncpy whose '
         'operands can share a base object (origins over reaching definitions) must be provably disjoint (affine distance = '
@@ -310,6 +311,8 @@ def c16(prog, rep):
     BL.rule_query_pairs_stored(prog, rep)
     from . import dlist as DL
     DL.rule_decode_last(prog, rep, fname='qparse_queries', rid='TB19')     # the query parser trims/splits still-encoded text
+    from . import strrules as SR
+    SR.rule_printf_char_hex(prog, rep, ['src/utilities/qencode.c', 'src/utilities/qstring.c', 'src/internal/qinternal.c'])
     rep.explanation = (
         'Exhaustive check of every entry of the five codec tables, read from their initialiser lists in the type-checked AST '
         '(located by role and length inside their functions, not by name): URL classification table (256 entries: value is 0 '
@@ -390,6 +393,10 @@ def c04(prog, rep):
     T.rule_t7b(prog, rep)
     T.rule_t8(prog, rep)
     T.rule_t10(prog, rep)
+    T.rule_t11(prog, rep)
+    T.rule_t11_reserved(prog, rep)
+    from . import dimrules as DM
+    DM.rule_wid2(prog, rep, [T.UNIT])
     o = T.rule_t1(prog, rep, rid='T1')
     T.rule_t2(prog, rep, o)
     from . import escape as E
@@ -422,6 +429,7 @@ def c05(prog, rep):
     BW.rule_valist_once(prog, rep, [CH.UNIT])
     from . import tree as T
     T.rule_t8(prog, rep, units=[CH.UNIT], any_size=True)    # qhashtbl accepts empty values: a NULL copy of one is not ENOMEM
+    T.rule_t13(prog, rep, rid='S8', unit=CH.UNIT, node='qhashtbl_obj_s', primary=())
     rep.explanation = (
         'Sibling-agreement and protocol rules on qhashtbl.c: S1 put/get/remove compute the chain slot from the same closed '
         'expression (hash function, length argument, modulus field, obtained by expanding local definitions) and the walk resumes '
@@ -496,6 +504,7 @@ def c20(prog, rep):
     CR.rule_lineno_reset(prog, rep)
     CR.rule_number_classifier_closed(prog, rep)
     CR.rule_expansion_untouched(prog, rep)
+    CR.rule_every_word_stored(prog, rep)
     rep.explanation = (
         'Narrow structural clauses of the Apache-style parser (qaconf.c): B1 the literal set the boolean classifier compares against '
         '(case-insensitively) contains all eight documented spellings and maps the two polarities and "not a boolean" to three '
@@ -594,6 +603,7 @@ def c03(prog, rep):
     from . import tree as T
     prog.unit(T.UNIT)
     T.rule_t11(prog, rep)
+    T.rule_t11_reserved(prog, rep)
     T.rule_t7(prog, rep)
     T.rule_t7b(prog, rep)
     T.rule_t10(prog, rep)
